@@ -6,6 +6,7 @@ mid-sampling followed by reuse.  Oracle: length, type, divisibility, existential
 search, downstream usability, source untouched; weighted-draw law by a rigorous frequency test.
 """
 import copy
+from numbers import Integral
 from collections import Counter
 from itertools import product
 
@@ -131,7 +132,7 @@ def check_sample(sc, ctx, res, jdd, jdd_before, obj, tag):
     ctx.check(f"{P}.type")
     for v, e in enumerate(res):
         if not (isinstance(e, tuple) and len(e) == ntop
-                and all(isinstance(x, int) and not isinstance(x, bool) and x >= 0 for x in e)):
+                and all(isinstance(x, Integral) and not isinstance(x, bool) and x >= 0 for x in e)):
             ctx.violate(f"{P}.type", f"entry {v} is {e!r} ({type(e).__name__}); expected a tuple of {ntop} non-negative ints{tag}")
             ctx.probe("patched_sample")
             return False
